@@ -156,9 +156,125 @@ pub fn run(seed: u64) -> String {
     }
 }
 
+/// a transport whose reads dawdle: when nothing is there to read it spins for a moment before answering Pending, which keeps
+/// the connection task inside `poll` (between its look at "any handles left?" and the registration of its waker) for a while
+struct SlowRead<T> {
+    io: T,
+    spin_us: u64,
+}
+
+impl<T: tokio::io::AsyncRead + Unpin> tokio::io::AsyncRead for SlowRead<T> {
+    fn poll_read(mut self: std::pin::Pin<&mut Self>, cx: &mut std::task::Context<'_>, buf: &mut tokio::io::ReadBuf<'_>) -> std::task::Poll<std::io::Result<()>> {
+        let r = std::pin::Pin::new(&mut self.io).poll_read(cx, buf);
+        if r.is_pending() && self.spin_us > 0 {
+            let t0 = std::time::Instant::now();
+            while t0.elapsed() < Duration::from_micros(self.spin_us) {
+                std::hint::spin_loop();
+            }
+        }
+        r
+    }
+}
+
+impl<T: tokio::io::AsyncWrite + Unpin> tokio::io::AsyncWrite for SlowRead<T> {
+    fn poll_write(mut self: std::pin::Pin<&mut Self>, cx: &mut std::task::Context<'_>, b: &[u8]) -> std::task::Poll<std::io::Result<usize>> {
+        std::pin::Pin::new(&mut self.io).poll_write(cx, b)
+    }
+    fn poll_flush(mut self: std::pin::Pin<&mut Self>, cx: &mut std::task::Context<'_>) -> std::task::Poll<std::io::Result<()>> {
+        std::pin::Pin::new(&mut self.io).poll_flush(cx)
+    }
+    fn poll_shutdown(mut self: std::pin::Pin<&mut Self>, cx: &mut std::task::Context<'_>) -> std::task::Poll<std::io::Result<()>> {
+        std::pin::Pin::new(&mut self.io).poll_shutdown(cx)
+    }
+}
+
+/// C20 / C19: the last handles of an idle client connection are dropped on OTHER threads while the connection task is
+/// (very probably) in the middle of a poll; whatever the interleaving, the connection must notice, send GOAWAY and finish.
+/// Many short-lived connections per run.
+pub fn run_idle(seed: u64) -> String {
+    let mut rng = Rng::new(seed ^ 0x1d1e_0000);
+    let trials = 25;
+    let rt = match tokio::runtime::Builder::new_multi_thread().worker_threads(4).enable_time().build() {
+        Ok(r) => r,
+        Err(e) => return format!("FAIL harness runtime {:?}", e),
+    };
+    let mut plan = vec![];
+    for _ in 0..trials {
+        plan.push((*rng.pick(&[0u64, 20, 100, 400]), rng.below(400), rng.below(3)));
+    }
+    let res: Result<Result<(), String>, _> = rt.block_on(async move {
+        tokio::time::timeout(Duration::from_secs(120), async move {
+            for (t, (spin, delay_us, order)) in plan.into_iter().enumerate() {
+                let (cio, sio) = tokio::io::duplex(65536);
+                let server = tokio::spawn(async move {
+                    let mut conn = match h2::server::handshake(sio).await {
+                        Ok(c) => c,
+                        Err(_) => return,
+                    };
+                    while let Some(Ok((_req, mut resp))) = conn.accept().await {
+                        if let Ok(mut ss) = resp.send_response(http::Response::new(()), false) {
+                            let _ = ss.send_data(Bytes::from_static(b"hello"), true);
+                        }
+                    }
+                });
+                let (mut sr, conn) = h2::client::handshake(SlowRead { io: cio, spin_us: spin }).await.map_err(|e| format!("client hs {:?}", e))?;
+                let cdrv = tokio::spawn(async move { conn.await });
+                let req = http::Request::builder().uri("http://example.com/").body(()).unwrap();
+                let (rf, _ss) = sr.send_request(req, true).map_err(|e| format!("send_request {:?}", e))?;
+                let resp = rf.await.map_err(|e| format!("response {:?}", e))?;
+                let mut body = resp.into_body();
+                while let Some(d) = body.data().await {
+                    let d = d.map_err(|e| format!("data {:?}", e))?;
+                    let _ = body.flow_control().release_capacity(d.len());
+                }
+                drop(_ss);
+                // the stream is finished; what is left are two handles, dropped from two other tasks at (almost) the same time
+                let a = tokio::spawn(async move {
+                    if order == 1 {
+                        tokio::task::yield_now().await;
+                    }
+                    drop(body);
+                });
+                let b = tokio::spawn(async move {
+                    if order == 2 {
+                        tokio::task::yield_now().await;
+                    }
+                    let t0 = std::time::Instant::now();
+                    while t0.elapsed() < Duration::from_micros(delay_us) {
+                        std::hint::spin_loop();
+                    }
+                    drop(sr);
+                });
+                let _ = a.await;
+                let _ = b.await;
+                match tokio::time::timeout(Duration::from_secs(3), cdrv).await {
+                    Err(_) => {
+                        return Err(format!(
+                            "C20 client connection did not finish within 3 s after its last handles were dropped on other threads (trial {}, spin {} us, delay {} us, order {})",
+                            t, spin, delay_us, order
+                        ))
+                    }
+                    Ok(Ok(Ok(()))) => {}
+                    Ok(r) => return Err(format!("C20 idle client connection ended with {:?} (trial {})", r.map(|x| x.map_err(|e| e.to_string())), t)),
+                }
+                server.abort();
+            }
+            Ok(())
+        })
+        .await
+    });
+    rt.shutdown_timeout(Duration::from_millis(200));
+    match res {
+        Err(_) => format!("FAIL C20 idle-close runs did not finish within 120 s seed={}", seed),
+        Ok(Err(e)) => format!("FAIL {} seed={}", e.replace(' ', "_"), seed),
+        Ok(Ok(())) => format!("ok idle trials={} seed={}", trials, seed),
+    }
+}
+
 pub fn handle(ws: &[&str]) -> Option<String> {
     match ws {
         ["thr_run", seed] => Some(run(seed.parse().ok()?)),
+        ["thr_idle", seed] => Some(run_idle(seed.parse().ok()?)),
         _ => None,
     }
 }
@@ -166,5 +282,8 @@ pub fn handle(ws: &[&str]) -> Option<String> {
 pub fn generate(seed: u64, cases: usize, out: &mut dyn std::io::Write) {
     for i in 0..cases {
         writeln!(out, "thr_run {}", seed.wrapping_mul(1_000_003).wrapping_add(i as u64)).unwrap();
+        if i % 2 == 0 {
+            writeln!(out, "thr_idle {}", seed.wrapping_mul(1_000_003).wrapping_add(i as u64)).unwrap();
+        }
     }
 }
